@@ -170,3 +170,36 @@ Proof.
   - cbn in *. destruct s; [|reflexivity]. exfalso.
     assert (F2R (Float radix2 (cond_Zopp true (Z.pos m)) e) < 0) by (apply F2R_lt_0; cbn; lia). lra.
 Qed.
+
+(* sign of a finite product *)
+Lemma FR_mul_sign : forall x y a b, FR x a -> FR y b -> Rabs (rnd (a * b)) < bpow radix2 1024 ->
+  Bsign (FP.Prim2B (x * y)%float) = xorb (Bsign (FP.Prim2B x)) (Bsign (FP.Prim2B y)).
+Proof.
+  intros x y a b [Fx Hx] [Fy Hy] Hb. rewrite FP.mul_equiv.
+  generalize (Bmult_correct prec emax FP.Hprec FP.Hmax mode_NE (FP.Prim2B x) (FP.Prim2B y)).
+  rewrite Hx, Hy. change (round radix2 _ _ (a*b)) with (rnd (a*b)).
+  rewrite Rlt_bool_true by exact Hb.
+  intros (_ & H2 & H3). apply H3.
+  destruct (Bmult mode_NE (FP.Prim2B x) (FP.Prim2B y)); try reflexivity.
+  rewrite Fx, Fy in H2. discriminate H2.
+Qed.
+
+Lemma FR_half : FR 0.5%float (/ 2).
+Proof. generalize (FR_const 0.5%float _ _ eq_refl). cbn -[IZR bpow]. intro H.
+  replace (/ 2) with (4503599627370496 * bpow radix2 (-53)). exact H.
+  change (bpow radix2 (-53)) with (/ IZR (2^53)). change (2^53)%Z with 9007199254740992%Z. field. Qed.
+Lemma FR_quarter : FR 0.25%float (/ 4).
+Proof. generalize (FR_const 0.25%float _ _ eq_refl). cbn -[IZR bpow]. intro H.
+  replace (/ 4) with (4503599627370496 * bpow radix2 (-54)). exact H.
+  change (bpow radix2 (-54)) with (/ IZR (2^54)). change (2^54)%Z with 18014398509481984%Z. field. Qed.
+
+(* integers below 2^53 are floats *)
+Lemma rnd_int_exact : forall z, (Z.abs z < 2 ^ 53)%Z -> rnd (IZR z) = IZR z.
+Proof.
+  intros z Hz. apply round_generic; auto with typeclass_instances.
+  apply (FLT.generic_format_FLT radix2 (3 - emax - prec) prec).
+  exists (Float radix2 z 0); cbn.
+  - unfold F2R; cbn. lra.
+  - exact Hz.
+  - unfold emax, prec. lia.
+Qed.
